@@ -294,6 +294,13 @@ class World:
                     res.fail('reinit', 'init_container on an initialised container did not raise FileExistsError')
                 except FileExistsError:
                     pass
+            elif kind == 'reinit_clear':
+                # init_container(clear=True): the documented way to start over with an empty container, through a live handle
+                self.h.init_container(clear=True, **self.config)
+                m.loose.clear()
+                m.packed.clear()
+                self.damaged.clear()
+                self.dups.clear()
             elif kind == 'switch':
                 self.cur = op[1]
             elif kind == 'damage':
@@ -487,4 +494,5 @@ def variant_alphabet():
     ops.append(('import', (2, 3, 3), True, 20, 'other'))
     ops.append(('import', (0, 2), False, 13, 'same'))
     ops.append(('reinit',))
+    ops.append(('reinit_clear',))
     return ops
